@@ -104,6 +104,9 @@ T = {
     "C19-m3-split-at-zero-forgets-zero-slot": ("real_samples split-at-zero clamp forgets the slot of the zero sample", "mixed-sign bounds, include_zero, lopsided range", True, ""),
     "C19-m4-fix-limit-value-zero-is-falsy": ("_fix_limit_value: `if value is None` -> `if not value`", "a scalar bound equal to zero given to the pair / complex-pair generators", False, "C19 product-generator configurations with +-0 bounds"),
     "C19-m5-complex-samples-imag-include-huge": ("complex_samples does not forward include_huge to the imaginary axis", "include_huge=False with a large enough imaginary size", True, ""),
+    "C14-m3-diff-ulp-flush-only-for-opposite-signs": ("diff_ulp flush remapping guarded by `sx != sy`", "flush_subnormals=True and two same-sign operands one of which is subnormal", True, ""),
+    "C14-m4-ulp-memoised-across-dtypes": ("utils.ulp memoised in a module-level dict keyed by the value", "a value representable in two float types asked first in one type and then in the other", True, ""),
+    "C14-m5-diff-log2ulp-via-frexp": ("diff_log2ulp computes the bit length through math.frexp", "float64 distances just below a power of two >= 2^54", False, "C14 also checks the documented identity diff_log2ulp = diff_ulp.bit_length() on every judged pair and flush mode"),
 }
 
 
